@@ -141,8 +141,73 @@ def ifswap(src, path):
       + '\n'
 
 
+def cmpflip(src, path):
+  """a < b -> b > a (single-operator comparisons of side-effect-free
+  operands)"""
+  flip = {ast.Lt: ast.Gt, ast.Gt: ast.Lt, ast.LtE: ast.GtE, ast.GtE: ast.LtE,
+          ast.Eq: ast.Eq, ast.NotEq: ast.NotEq}
+
+  class C(ast.NodeTransformer):
+    def visit_Compare(self, node):
+      self.generic_visit(node)
+      if len(node.ops) == 1 and type(node.ops[0]) in flip and \
+              not isinstance(node.comparators[0], ast.Constant):
+        return ast.Compare(left=node.comparators[0],
+                           ops=[flip[type(node.ops[0])]()],
+                           comparators=[node.left])
+      return node
+  return ast.unparse(ast.fix_missing_locations(C().visit(ast.parse(src)))) \
+      + '\n'
+
+
+def isnot(src, path):
+  """x is not None -> not x is None ; x is None stays"""
+  class C(ast.NodeTransformer):
+    def visit_Compare(self, node):
+      self.generic_visit(node)
+      if len(node.ops) == 1 and isinstance(node.ops[0], ast.IsNot):
+        return ast.UnaryOp(op=ast.Not(), operand=ast.Compare(
+            left=node.left, ops=[ast.Is()], comparators=node.comparators))
+      return node
+  return ast.unparse(ast.fix_missing_locations(C().visit(ast.parse(src)))) \
+      + '\n'
+
+
+def earlyret(src, path):
+  """if c: ...return/raise  else: B   ->   if c: ...return/raise ; B"""
+  def ends(body):
+    return body and isinstance(body[-1], (ast.Return, ast.Raise))
+
+  class E(ast.NodeTransformer):
+    def _block(self, body):
+      out = []
+      for st in body:
+        st = self.visit(st)
+        if isinstance(st, ast.If) and st.orelse and ends(st.body) and \
+                not (len(st.orelse) == 1 and isinstance(st.orelse[0], ast.If)):
+          rest = st.orelse
+          st.orelse = []
+          out.append(st)
+          out.extend(rest)
+        else:
+          out.append(st)
+      return out
+
+    def generic_visit(self, node):
+      for fld in ('body', 'orelse', 'finalbody'):
+        b = getattr(node, fld, None)
+        if isinstance(b, list) and b and isinstance(b[0], ast.stmt):
+          setattr(node, fld, self._block(b))
+      for h in getattr(node, 'handlers', []):
+        h.body = self._block(h.body)
+      return node
+  t = ast.parse(src)
+  E().visit(t)
+  return ast.unparse(ast.fix_missing_locations(t)) + '\n'
+
+
 T = dict(roundtrip=roundtrip, rename=rename, dot=dot, ifswap=ifswap,
-         matmul=matmul)
+         matmul=matmul, cmpflip=cmpflip, isnot=isnot, earlyret=earlyret)
 
 
 def run(name, checks, keep=None):
